@@ -26,6 +26,8 @@ def main(tier, only=None):
         "guard: every well-formed file of 1..%d lines over the alphabet above plus `#define N`" % n_guard,
         "search: 4 include directories + includer's directory, 2 file names, file_exists an arbitrary relation; "
         "sequences of <= 3 searches for the include cache",
+        "directive: the three fixed inputs of harness/c10/direxp.c (real preprocess2 + real expand_macro), macro choice "
+        "and #if bit symbolic",
         "args: option shapes {-Ia -Ib}, {-Ia -I b}, {-Ia -idirafter z -Ib}, {-idirafter z1 -idirafter z2 -Ia}",
     ]
     chk.assumptions += [
@@ -75,6 +77,16 @@ def main(tier, only=None):
                  replace_calls=("include_file:stub_include_file", "expand_macro:stub_expand_macro")),
         ]
         e1.run_set(chk, "c10/search.c", hs, workers=4)
+    if want("directive"):
+        cuts = ("eval_const_expr:stub_eval_const_expr", "read_include_filename:stub_read_include_filename",
+                "read_macro_definition:stub_read_macro_definition", "read_line_marker:stub_read_line_marker")
+        hs = [e1.H(fn, key, unwind=12, object_bits=12, timeout=300, replace_calls=cuts, defines=("HK_dx",), desc=d)
+              for fn, key, d in (
+                  ("h_after_empty", "directive/after-empty-macro",
+                   "x M | #if b | t | #endif | u with M in {empty object-like, empty F(), N->n, none}"),
+                  ("h_hash_macro", "directive/hash-from-macro", "`H error` with H -> # is text (C11 6.10.3.4p3)"),
+                  ("h_empty_hash", "directive/hash-after-empty-macro", "`E # error` with empty E is text (C11 6.10p2)"))]
+        e1.run_set(chk, "c10/direxp.c", hs, workers=4)
     if want("args"):
         hs = [e1.H("h_args_" + n, "args/" + n, unwind=45, timeout=300)
               for n in ("I_only", "I_separate", "idirafter", "idirafter2")]
